@@ -120,6 +120,16 @@ def run(ctx, p):
 
         rig.sock.subscribe_on_message_received(raising_subscriber)
 
+        async def greeting_subscriber(*, connected):
+            # like the API objects: a request is sent from inside the 'connected' notification
+            if connected:
+                try:
+                    await rig.sock.send(cat[5][1](0), S.RETRY_CONNECTED)
+                except (S.QueueOverflowError, S.NotOpenError):
+                    pass
+
+        rig.sock.subscribe_on_connection_changed(greeting_subscriber)
+
         async def user_send(msg, policy):
             try:
                 await rig.sock.send(msg, policy)
